@@ -7,9 +7,25 @@ reg("C17",
     bounds="real-time executor, single evaluation thread; KNODES self-scheduling nodes re-scheduling JEVALS times by a symbolic delta in [0,DMAX] us; run starts "
            "0..3 us behind the wall clock (symbolic); every timed wait may overshoot its deadline by 0..LATE_MAX_US us and node 0's evaluation takes 0..BUSY_MAX_US us "
            "(both enumerated); a stop request is injected at the k-th wait for every k < MAX_WAITS, from a node's start hook, or never; window WIN us",
-    outside="wall-clock alarms (on_wall_clock scheduling); the 1024-cycle drain cut; pushes (covered by C16_push_rt); real threads and data races; sub-microsecond clock values",
+    outside="wall-clock alarms (see C17_alarm); the 1024-cycle drain cut; pushes (covered by C16_push_rt); real threads and data races; sub-microsecond clock values",
     assumptions=["the wall clock is symx's virtual clock: it advances only while waiting (to the wait deadline plus lateness) and while node 0 evaluates; "
                  "symbolic wait deadlines are made concrete by solver-driven enumeration",
+                 "condition-variable waits are modelled for a single thread: mutex released, verif_wait_hook (the environment) runs, then notified or timed out"],
+    )
+
+reg("C17",
+    name="C17_alarm", src="harness/C17_realtime.cpp",
+    anchor_files=["include/hgraph/runtime/node_scheduler.h", "src/hgraph/runtime/executor.cpp", "src/hgraph/runtime/node.cpp", "src/hgraph/runtime/evaluation_clock.cpp"],
+    quick=dict(defs=dict(KNODES=2, JEVALS=1, DMAX=3, WIN=8, BUSY_MAX_US=2, LATE_MAX_US=2, MAX_WAITS=4, ALARMS=1), symx=dict(shards=16, **{"max-wall": 900})),
+    thorough=dict(defs=dict(KNODES=2, JEVALS=2, DMAX=3, WIN=10, BUSY_MAX_US=2, LATE_MAX_US=2, MAX_WAITS=6, ALARMS=1), symx=dict(shards=16, **{"max-wall": 3000, "shard-depth": 8})),
+    reach=["end", "run_returned", "ran_to_end_time", "already_due_alarm_requested", "stop_requested_during_wait", "three_cycles"],
+    bounds="as C17_realtime, but node 1 asks for WALL-CLOCK alarms (NodeScheduler::schedule(when, tag, on_wall_clock=true)) at host time (wall now + d) with symbolic "
+           "d in [-2,DMAX] us: alarms in the future, alarms already due when requested (d <= 0) and alarms overtaken by a lagging graph (logical now behind the host "
+           "clock after node 0's busy evaluation); node 0 keeps logical-time requests",
+    outside="alarms requested from a start hook; tagged alarms and their replacement; the 1024-cycle drain cut; real threads and data races; sub-microsecond clock values",
+    assumptions=["the wall clock is symx's virtual clock: it advances only while waiting (to the wait deadline plus lateness) and while node 0 evaluates",
+                 "an already-due alarm is expected at max(evaluation time + smallest step, max(evaluation time, host clock at the request)) - the 'next evaluatable cycle' of "
+                 "node_scheduler.h; a future alarm at exactly its host time",
                  "condition-variable waits are modelled for a single thread: mutex released, verif_wait_hook (the environment) runs, then notified or timed out"],
     )
 
